@@ -393,7 +393,8 @@ BidirectionalIterator partition_impl(BidirectionalIterator first, BidirectionalI
 #define N %d
 void h_partition(void)
 {
-    T a[N + 1], a0[N + 1]; unsigned n, w;
+    T a[N + 1], a0[N + 1]; unsigned n, w, pb;
+    g_predbits = pb;     /* ANY predicate table (a global is zero-initialised in a plain cbmc harness: it must be set explicitly) */
     __CPROVER_assume(n <= N && w < 32);
     for (unsigned i = 0; i < N; ++i) { __CPROVER_assume(a[i] < 32); a0[i] = a[i]; }
     T* r = partition_impl(a, a + n);
@@ -410,6 +411,8 @@ void h_partition(void)
             __CPROVER_assert(a[i] == a0[i], "partition.frame: nothing outside [first, last) written");
     }
     __CPROVER_assert(c0 == c1, "partition.permutation: multiset of elements preserved (witness value)");
+    __CPROVER_assert(!(n == 3 && VERIF_PRED(a0[0]) && !VERIF_PRED(a0[1]) && VERIF_PRED(a0[2])), "cover.partition_mixed: a true/false/true input is reachable");
+    __CPROVER_assert(!(n == 2 && VERIF_PRED(a0[0]) && VERIF_PRED(a0[1])), "cover.partition_all_true: an all-true input is reachable");
     VERIF_CANARY();
 }
 """ % N)
